@@ -602,3 +602,110 @@ pub broadcast group group_ruint {
 pub assume_specification [<core::cmp::Ordering as PartialEq>::eq] (a: &core::cmp::Ordering, b: &core::cmp::Ordering) -> (r: bool)
     ensures r == (*a == *b);
 // ---- end section std-ordering ----
+
+// ---- section bit-lemmas (owner: i256 / C03) ----  (proved, nothing trusted here)
+pub proof fn lemma_ru_pow2_strict(a: nat, b: nat)
+    requires a < b,
+    ensures ru_pow2(a) < ru_pow2(b), 2 * ru_pow2(a) <= ru_pow2(b),
+{
+    lemma_ru_pow2_add(a, (b - a) as nat);
+    lemma_ru_pow2_add(1, (b - a - 1) as nat);
+    lemma_ru_pow2_pos(a);
+    lemma_ru_pow2_pos((b - a - 1) as nat);
+    reveal_with_fuel(ru_pow2, 2);
+    let (x, y) = (ru_pow2(a), ru_pow2((b - a - 1) as nat));
+    assert(ru_pow2(b) == x * (2 * y));
+    assert(2 * x <= x * (2 * y)) by(nonlinear_arith) requires x > 0, y >= 1;
+}
+
+/// x = q * 2^i + r with 0 <= r < 2^i  ==>  bit i of x is the parity of q
+pub proof fn lemma_ubit_decompose(x: nat, i: nat, q: nat, r: nat)
+    requires x == q * ru_pow2(i) + r, r < ru_pow2(i),
+    ensures ubit(x, i) == (q % 2 == 1), x / ru_pow2(i) == q,
+{
+    lemma_ru_pow2_pos(i);
+    vstd::arithmetic::div_mod::lemma_fundamental_div_mod_converse(x as int, ru_pow2(i) as int, q as int, r as int);
+}
+
+/// bits of 2^n - 1: exactly the bits below n
+pub proof fn lemma_ubit_mask(n: nat, i: nat)
+    ensures ubit((ru_pow2(n) - 1) as nat, i) == (i < n),
+{
+    lemma_ru_pow2_pos(n);
+    lemma_ru_pow2_pos(i);
+    let x = (ru_pow2(n) - 1) as nat;
+    if i < n {
+        let d = (n - i) as nat;
+        lemma_ru_pow2_add(i, d);
+        lemma_ru_pow2_add(1, (d - 1) as nat);
+        reveal_with_fuel(ru_pow2, 2);
+        let h = ru_pow2((d - 1) as nat);
+        lemma_ru_pow2_pos((d - 1) as nat);
+        let q = (2 * h - 1) as nat;
+        let r = (ru_pow2(i) - 1) as nat;
+        assert(ru_pow2(n) == ru_pow2(i) * (2 * h));
+        assert(x == q * ru_pow2(i) + r) by(nonlinear_arith)
+            requires x == ru_pow2(i) * (2 * h) - 1, q == 2 * h - 1, r == ru_pow2(i) - 1, h >= 1;
+        lemma_ubit_decompose(x, i, q, r);
+    } else {
+        if n < i { lemma_ru_pow2_strict(n, i); }
+        assert(x == 0 * ru_pow2(i) + x) by(nonlinear_arith);
+        lemma_ubit_decompose(x, i, 0, x);
+    }
+}
+
+/// bits of the complement 2^w - 1 - m (m < 2^w): the negated bits of m, below w
+pub proof fn lemma_ubit_not(w: nat, m: nat, i: nat)
+    requires m < ru_pow2(w), i < w,
+    ensures ubit((ru_pow2(w) - 1 - m) as nat, i) == !ubit(m, i),
+{
+    lemma_ru_pow2_pos(i);
+    let b = ru_pow2(i);
+    let q = m / b;
+    let r = m % b;
+    vstd::arithmetic::div_mod::lemma_fundamental_div_mod(m as int, b as int);
+    assert(0 <= r < b) by(nonlinear_arith) requires r == m % b, b > 0;
+    assert(m == b * q + r);
+    let d = (w - i) as nat;
+    lemma_ru_pow2_add(i, d);
+    lemma_ru_pow2_add(1, (d - 1) as nat);
+    reveal_with_fuel(ru_pow2, 2);
+    let h = ru_pow2((d - 1) as nat);
+    assert(ru_pow2(w) == b * (2 * h));
+    assert(q < 2 * h) by(nonlinear_arith) requires b * q + r < b * (2 * h), r >= 0, b > 0;
+    let x = (ru_pow2(w) - 1 - m) as nat;
+    let q2 = (2 * h - 1 - q) as nat;
+    let r2 = (b - 1 - r) as nat;
+    assert(x == q2 * b + r2) by(nonlinear_arith)
+        requires x == b * (2 * h) - 1 - (b * q + r), q2 == 2 * h - 1 - q, r2 == b - 1 - r;
+    lemma_ubit_decompose(x, i, q2, r2);
+    assert(q * b + r == m) by(nonlinear_arith) requires m == b * q + r;
+    lemma_ubit_decompose(m, i, q, r);
+}
+
+/// a natural below 2^w with all bits below w clear is 0 / two naturals below 2^w with the same bits are equal
+pub proof fn lemma_ubit_ext(w: nat, x: nat, y: nat)
+    requires x < ru_pow2(w), y < ru_pow2(w), forall|i: nat| i < w ==> ubit(x, i) == ubit(y, i),
+    ensures x == y,
+    decreases w,
+{
+    reveal_with_fuel(ru_pow2, 2);
+    if w > 0 {
+        // strip bit 0: x = 2 x' + b0
+        let (x1, y1) = (x / 2, y / 2);
+        assert(x1 < ru_pow2((w - 1) as nat) && y1 < ru_pow2((w - 1) as nat));
+        assert forall|i: nat| i < w - 1 implies ubit(x1, i) == ubit(y1, i) by {
+            lemma_ru_pow2_add(1, i);
+            lemma_ru_pow2_pos(i);
+            assert(ubit(x, i + 1) == ubit(y, i + 1));
+            let b = ru_pow2(i);
+            assert(ru_pow2(i + 1) == 2 * b);
+            vstd::arithmetic::div_mod::lemma_div_denominator(x as int, 2, b as int);
+            vstd::arithmetic::div_mod::lemma_div_denominator(y as int, 2, b as int);
+        }
+        lemma_ubit_ext((w - 1) as nat, x1, y1);
+        assert(ubit(x, 0) == ubit(y, 0));
+        assert(x / 1 == x && y / 1 == y);
+    }
+}
+// ---- end section bit-lemmas ----
